@@ -11,14 +11,25 @@
   Quantification: every configuration, every `variables` value of the modelled value language,
   every list of frames — no bound on its length (induction over the frame list).
 
-  Verdict on the pinned tree:  `C13_full` is FALSE (`C13_full_false`), for three reasons, each a
+  §9 (Model/WsClientHeap.lean): the CONNECTION side on references - `__init__`, the header statements
+  of `execute_ws` / `_execute_ws` / `_execute_ws_with_telemetry` on a store of dict objects, sequences
+  and schedules of subscriptions on ONE client object sharing dicts in any pattern: no object that
+  existed is written, the client object is what it was, every subscription is the one it is alone
+  (`sequence_history_free`, `each_socket_headers`, `interleaved_subscriptions_independent`).
+  §10: the consumer's side (refused connection, `aclose()` after n items).  §11: which variables
+  `json.dumps` (no `default=`) can serialise (C13-F4).
+
+  Verdict on the pinned tree:  `C13_full` is FALSE (`C13_full_false`), for four reasons, each a
   recorded finding with a decidable trigger:
     C13-F1 `trigExtraHeadersKwarg`  the handshake clause (`handshake_full_false`): every call passes
                                     `extra_headers=`, which the installed websockets rejects;
     C13-F2 `trigFalsyNextData`      the yield clause (`yields_in_order_full_false`): `if data:`;
     C13-F3 `trigBinaryNotUtf8`      the invalid-message clause (`invalid_raises_full_false`):
-                                    UnicodeDecodeError is not a JSONDecodeError.
-  `C13_partial` proves every protocol clause for every input outside the F2/F3 triggers, *given a
+                                    UnicodeDecodeError is not a JSONDecodeError;
+    C13-F4 `trigVarsNeedJsonableDefault`  the subscribe clause (`variables_serialised_full_false`): a
+                                    `datetime`/`Decimal`/… variable (custom scalar "supported by
+                                    pydantic") makes `json.dumps` raise, no subscribe is sent.
+  `C13_partial` proves every protocol clause for every input outside the F2/F3/F4 triggers, *given a
   socket* (the model's connect is abstract).  The F1 trigger is true of every call, so the handshake
   clause has no true part on this tree: it is decided by the loopback oracle of harness/c13.py.
 -/
@@ -30,6 +41,8 @@ import AriadneModel.Spec.WsConnect
 import AriadneModel.Proofs.WsClient
 import AriadneModel.Model.SubscriptionMethod
 import AriadneModel.Proofs.SubscriptionMethod
+import AriadneModel.Model.WsClientHeap
+import AriadneModel.Proofs.WsClientHeap
 
 set_option linter.unusedSimpArgs false
 set_option linter.unusedVariables false
@@ -434,15 +447,22 @@ structure ProtocolFull (cfg : Cfg) (vars : Vars) (frames : List Frame) : Prop wh
     (runPlain cfg vars frames).received = a :: consumed fs ∧
     (∀ o, demandedOutcome (firstTerminal fs) = some o → (runPlain cfg vars frames).outcome = o)
 
+/-- the subscribe clause presupposes the variables can be serialised: inside the reading
+    (Spec/GraphqlTransportWs.lean `readableVars`) they always must be -/
+def VariablesSerialised : Prop :=
+  ∀ vars : Vars, readableVars vars = true → ∃ v, Serialised vars v
+
 /-- **C13 at full strength**: every configuration, variables value, frame list. -/
 def C13_full : Prop :=
   (∀ cfg vars frames, NoDupKw cfg → ProtocolFull cfg vars frames) ∧
   (∀ tracer cfg vars frames, runOT tracer cfg vars frames = runPlain cfg vars frames) ∧
-  HandshakeAccepted
+  HandshakeAccepted ∧
+  VariablesSerialised
 
-/-- the inputs outside the trigger regions of the two protocol findings (C13-F2, C13-F3) -/
+/-- the inputs outside the trigger regions of the three protocol findings (C13-F2, C13-F3, C13-F4) -/
 def Supported_13 (cfg : Cfg) (vars : Vars) (frames : List Frame) : Prop :=
-  ¬ (trigFalsyNextData cfg vars frames = true ∨ trigBinaryNotUtf8 cfg vars frames = true)
+  ¬ (trigFalsyNextData cfg vars frames = true ∨ trigBinaryNotUtf8 cfg vars frames = true ∨
+     trigVarsNeedJsonableDefault cfg vars frames = true)
 
 def cfg0 : Cfg :=
   { url := "ws://h/graphql", headers := [("Authorization", .str "Bearer t")], origin := some "https://o",
@@ -481,7 +501,7 @@ theorem invalid_raises_full_false : ¬ (∀ cfg vars a fs x, NoDupKw cfg → (le
   rw [run_after_ack cfg0 none frAck _ none cfg0_ok frAck_isAck (Or.inl ⟨rfl, rfl⟩)] at h1
   simp [stream, handle] at h1
 
-theorem C13_full_false : ¬ C13_full := fun h => handshake_full_false h.2.2
+theorem C13_full_false : ¬ C13_full := fun h => handshake_full_false h.2.2.1
 
 /-- …and the protocol part alone is false as well (independently of the handshake). -/
 theorem C13_protocol_full_false : ¬ (∀ cfg vars frames, NoDupKw cfg → ProtocolFull cfg vars frames) := by
@@ -493,10 +513,54 @@ theorem C13_protocol_full_false : ¬ (∀ cfg vars frames, NoDupKw cfg → Proto
   simp [prefixUntilTerminal, continuesF, frNext, letter, J.lookup, Letter.continues,
     Letter.truthyNextData, Letter.nextData, J.truthy] at h1
 
-/-- **C13_partial**: outside the trigger regions of C13-F2 and C13-F3 every protocol clause holds
-    at full strength, for every configuration, variables value and frame list (given a socket). -/
+/-- variables inside the reading without a foreign leaf are serialised (the proof is
+    `convDict_readable`: induction over the value tree) -/
+theorem readable_clean_serialised (vars : Vars) (hr : readableVars vars = true) (hf : hasForeignVars vars = false) :
+    ∃ v, Serialised vars v := by
+  cases vars with
+  | none => exact ⟨none, Or.inl ⟨rfl, rfl⟩⟩
+  | some kvs =>
+    cases kvs with
+    | nil => exact ⟨none, Or.inl ⟨rfl, rfl⟩⟩
+    | cons kv rest =>
+      obtain ⟨o, ho⟩ := Option.isSome_iff_exists.mp (convDict_readable (kv :: rest) hr hf)
+      exact ⟨some (.obj o), Or.inr ⟨.obj o, by simp [serialise, ho], rfl⟩⟩
+
+/-- …and the trigger of C13-F4 is tight: ANY foreign leaf (a `datetime`, an `Upload`, …), wherever
+    it sits, makes `json.dumps` raise - for every variables value, readable or not. -/
+theorem foreign_never_serialised (vars : Vars) (hf : hasForeignVars vars = true) : serialise vars = .typeError := by
+  cases vars with
+  | none => simp [hasForeignVars] at hf
+  | some kvs =>
+    cases kvs with
+    | nil => simp [hasForeignVars, hasForeignKvs] at hf
+    | cons kv rest => simp [serialise, convDict_foreign (kv :: rest) hf]
+
+/-- what happens then: the ack is consumed, the `TypeError` escapes, no subscribe is ever sent -/
+theorem foreign_variables_run (cfg : Cfg) (vars : Vars) (a : Frame) (fs : List Frame) (h : NoDupKw cfg)
+    (ha : (letter a).isAck = true) (hf : hasForeignVars vars = true) :
+    runPlain cfg vars (a :: fs) = ⟨[theConnect cfg, .send (initMsg cfg), .recv a], .internal "TypeError"⟩ ∧
+    (runPlain cfg vars (a :: fs)).sent.filter Msg.isSubscribe = [] := by
+  have hr := run_unserialisable cfg vars a fs h ha (foreign_never_serialised vars hf)
+  rw [hr]
+  exact ⟨rfl, rfl⟩
+
+/-- C13-F4 witness: `{"since": datetime(...)}` - a custom scalar "supported by pydantic" -/
+def varsF4 : Vars := some [("since", .foreign (some (.str "2020-01-01T00:00:00")))]
+
+theorem variables_serialised_full_false : ¬ VariablesSerialised := by
+  intro h
+  obtain ⟨v, hv⟩ := h varsF4 rfl
+  have : serialise varsF4 = .typeError := foreign_never_serialised varsF4 rfl
+  rcases hv with ⟨hs, -⟩ | ⟨j, hs, -⟩ <;> rw [this] at hs <;> cases hs
+
+/-- **C13_partial**: outside the trigger regions of C13-F2, C13-F3 and C13-F4 every protocol clause
+    holds at full strength, for every configuration, variables value and frame list (given a
+    socket), and variables inside the reading reach the subscribe message. -/
 theorem C13_partial (cfg : Cfg) (vars : Vars) (frames : List Frame) (h : NoDupKw cfg)
-    (hs : Supported_13 cfg vars frames) : ProtocolFull cfg vars frames := by
+    (hs : Supported_13 cfg vars frames) :
+    ProtocolFull cfg vars frames ∧
+    (∀ a fs, frames = a :: fs → (letter a).isAck = true → readableVars vars = true → ∃ v, Serialised vars v) := by
   have hk : J.hasKey "subprotocols" cfg.kwargs = false := h
   have hs1 : trigFalsyNextData cfg vars frames = false := by
     cases hh : trigFalsyNextData cfg vars frames
@@ -505,8 +569,12 @@ theorem C13_partial (cfg : Cfg) (vars : Vars) (frames : List Frame) (h : NoDupKw
   have hs2 : trigBinaryNotUtf8 cfg vars frames = false := by
     cases hh : trigBinaryNotUtf8 cfg vars frames
     · rfl
-    · exact absurd (Or.inr hh) hs
-  refine ⟨(init_first cfg vars frames h).1, ?_, ?_⟩
+    · exact absurd (Or.inr (Or.inl hh)) hs
+  have hs3 : trigVarsNeedJsonableDefault cfg vars frames = false := by
+    cases hh : trigVarsNeedJsonableDefault cfg vars frames
+    · rfl
+    · exact absurd (Or.inr (Or.inr hh)) hs
+  refine ⟨⟨(init_first cfg vars frames h).1, ?_, ?_⟩, ?_⟩
   · intro f fs hfr hf
     subst hfr
     obtain ⟨-, h2, h3, h4, h5⟩ := nothing_before_ack cfg vars f fs h hf
@@ -528,11 +596,17 @@ theorem C13_partial (cfg : Cfg) (vars : Vars) (frames : List Frame) (h : NoDupKw
     cases hb : isBadBytes x
     · rfl
     · simp [trigBinaryNotUtf8, hk, hst, hx, hb] at hs2
+  · intro a fs hfr ha hr
+    subst hfr
+    apply readable_clean_serialised vars hr
+    cases hf : hasForeignVars vars
+    · rfl
+    · simp [trigVarsNeedJsonableDefault, hk, ha, hr, hf] at hs3
 
 /-! ## 7. Non-vacuity: concrete inputs satisfying the hypotheses, hitting each clause -/
 
 example : Supported_13 cfg0 none [frAck, frNext (.obj [("counter", .num 1 0)]), frPing, frComplete, frPing] := by
-  simp [Supported_13, trigFalsyNextData, trigBinaryNotUtf8, streamed, cfg0, J.hasKey, J.lookup, frAck, frNext,
+  simp [Supported_13, trigFalsyNextData, trigBinaryNotUtf8, trigVarsNeedJsonableDefault, hasForeignVars, streamed, cfg0, J.hasKey, J.lookup, frAck, frNext,
     frPing, frComplete, letter, Letter.isAck, serialise, prefixUntilTerminal, firstTerminal, continuesF,
     Letter.continues, Letter.falsyNext, J.truthy, isBadBytes]
 
@@ -550,6 +624,19 @@ example : continuesF frPing = true ∧ continuesF (frNext (.num 0 0)) = true ∧
   refine ⟨?_, ?_, ?_, ?_, ?_⟩ <;>
     simp [continuesF, frPing, frNext, frComplete, frUnknown, frError, InvalidLetter, letter, J.lookup,
       Letter.continues, errShaped]
+
+/-- the trigger of C13-F4 is true of its witness, and a clean readable value is outside it -/
+example : trigVarsNeedJsonableDefault cfg0 varsF4 [frAck] = true := by
+  simp [trigVarsNeedJsonableDefault, cfg0, J.hasKey, J.lookup, frAck, letter, Letter.isAck, varsF4, readableVars,
+    readableTop, readable, hasForeignVars, hasForeignKvs, hasForeign]
+
+example : readableVars (some [("a", .unset), ("w", .modelPy [("since", .foreign (some (.str "x")))]),
+    ("l", .list [.model (.obj []), .foreign (some .null)])]) = true := by
+  simp [readableVars, readableTop, readable, readableList, plainPFKvs, plainPF]
+
+/-- an `Upload` is outside the reading and refused the same way (`foreign_never_serialised`) -/
+example : readableVars (some [("file", .foreign none)]) = false ∧
+    serialise (some [("file", .foreign none)]) = .typeError := ⟨by simp [readableVars, readableTop, readable], rfl⟩
 
 /-- variables with a top-level UNSET, a model and a list of models serialise -/
 example : Serialised
@@ -680,5 +767,308 @@ example : ¬ MethodWF ["query", "_query"] [("query", "query"), ("_query", "_quer
   intro h
   have := h.queryLocalFree
   simp [SubMethod.emit, ClientMethod.getVariableNames, ClientMethod.rename, ClientMethod.selfName] at this
+
+
+/-- the loop of the generated method hands `model_validate` the element it just received, whatever
+    the parameters are called (the loop target and the yield argument are the same - renamed - local,
+    and the `async for` rebinds it on every round) -/
+theorem generated_method_yields_item (params : List String) (dict : List (String × String)) (opName : String)
+    (env : SubMethod.Env) :
+    SubMethod.yieldValue (SubMethod.emit params dict opName) env = some .item :=
+  SubMethodProofs.lookup_assign_same _ _ _
+
+/-- what the theorem excludes: `yield Ret.model_validate(data)` where the loop variable was renamed
+    to `_data` validates the caller's argument instead of the element -/
+example :
+    SubMethod.yieldValue { SubMethod.emit ["data"] [("data", "data")] "Feed" with yieldArg := "data" }
+        (SubMethod.initEnv ["data"] [("data", .str "mine")]) = some (.arg (.str "mine")) := by
+  simp [SubMethod.yieldValue, SubMethod.emit, SubMethod.initEnv, SubMethod.assign, SubMethod.lookup, SubMethod.argValue,
+    ClientMethod.getVariableNames, ClientMethod.rename, ClientMethod.selfName]
+
+/-! ## 9. The CONNECTION side on references: one client object, many subscriptions
+
+  Model/WsClientHeap.lean.  `s` is any store of dict objects, `cl` any client object whose
+  `ws_headers` / `ws_connection_init_payload` are addresses into it, every call names its
+  `extra_headers` dict by address - so the dict given to the constructor, the dicts given to
+  different calls and the dict of one call may all be the same object or not. -/
+
+open Ariadne.WsHeap Ariadne.WsHeapProofs
+
+/-- the three real code paths as executors over the extracted tables -/
+def execOf : Variant → Cfg → Vars → List Frame → Trace
+  | .plain => runPlain
+  | .ot tracer => runOT tracer
+
+theorem execOf_viaMerge (v : Variant) : HeadersViaMerge (execOf v) := by
+  cases v with
+  | plain => intro cfg vars fs; exact run_viaMerge Tables.wsTypesAsync Tables.wsSubprotocolAsync cfg vars fs
+  | ot tracer =>
+    intro cfg vars fs
+    exact runOT_viaMerge tracer Tables.wsTypesAsyncOT Tables.wsSubprotocolAsyncOT cfg vars fs
+
+theorem execOf_eq_plain (v : Variant) : execOf v = runPlain := by
+  cases v with
+  | plain => rfl
+  | ot tracer => funext cfg vars fs; exact ot_equivalent tracer cfg vars fs
+
+/-- **ws_merge_writes_only_own_object.**  The header statements of `execute_ws` - each of the three
+    copies - on EVERY store and every pair of references: they succeed iff the references name
+    objects; every object that existed before is what it was (`self.ws_headers.copy()` allocates, and
+    `update` writes into the copy); the dict handed to `ws_connect` is the new object, holding the
+    configured headers updated by the call's `extra_headers` (Python's `dict.update`). -/
+theorem ws_merge_writes_only_own_object (v : Variant) (s : Store) (w : Nat) (e : Option Nat) :
+    match v.merge s w e with
+    | some (s', a) =>
+        (∀ i, i < s.length → s'[i]? = s[i]?) ∧ a = s.length ∧
+        ∃ d x, s[w]? = some d ∧ extraAt s e = some x ∧ s'[a]? = some (dictUpdate d (x.getD []))
+    | none => s[w]? = none ∨ extraAt s e = none := by
+  cases hw : s[w]? with
+  | none =>
+    rw [variant_merge_eq]
+    simp [mergeHeadersS, hw]
+  | some d =>
+    cases he : extraAt s e with
+    | none =>
+      rw [variant_merge_eq]
+      cases e with
+      | none => simp [extraAt] at he
+      | some a =>
+        simp only [extraAt, Option.map_eq_none_iff] at he
+        have hlt : ¬ a < s.length := by
+          intro hlt; rw [List.getElem?_eq_getElem hlt] at he; cases he
+        simp [mergeHeadersS, hw, hlt]
+    | some x =>
+      obtain ⟨tail, hm⟩ := merge_closed v s w e d x hw he
+      rw [hm]
+      refine ⟨fun i hi => List.getElem?_append_left hi, rfl, d, x, rfl, rfl, by simp⟩
+
+/-- The theorem above is about the code, not about the shape of the model: the condensed rewrite
+    that updates `self.ws_headers` itself (Model/WsClientHeap.lean `mergeHeadersInPlaceS`) writes
+    the per-call headers into the configured object - which, after `ws_headers or {}`, is the dict
+    the caller passed to the constructor. -/
+theorem inplace_merge_breaks_frame :
+    ∃ (s s' : Store) (a : Nat), mergeHeadersInPlaceS s 0 (some 1) = some (s', a) ∧ s'[0]? ≠ s[0]? :=
+  ⟨[[("Authorization", .str "Bearer service")], [("Authorization", .str "Bearer user-42")]], _, _, rfl,
+    by intro h; simp [dictUpdate, dictSet] at h⟩
+
+/-- **constructor_keeps_reference.**  `self.ws_headers = ws_headers or {}`: a non-empty dict is kept
+    by reference and nothing is allocated; `None` / `{}` give the client a new empty dict; in every
+    case every object that existed is what it was and the client's references name objects. -/
+theorem constructor_keeps_reference (s : Store) (a : CtorArgs) (s0 : Store) (cl : ClientObj)
+    (h : construct s a = some (s0, cl)) :
+    (∃ t, s0 = s ++ t) ∧ (s0[cl.wsHeaders]?).isSome = true ∧ cl.url = a.wsUrl ∧ cl.initPayload = a.initPayload ∧
+    (∀ hd d rest, a.wsHeaders = some hd → s[hd]? = some (d :: rest) → cl.wsHeaders = hd ∧ s0 = s) ∧
+    ((a.wsHeaders = none ∨ ∃ hd, a.wsHeaders = some hd ∧ s[hd]? = some []) →
+      cl.wsHeaders = s.length ∧ s0 = s ++ [[]]) := by
+  unfold construct at h
+  by_cases hi : refOk s a.initPayload = true
+  case neg => simp [hi] at h
+  case pos =>
+    simp only [hi, if_true] at h
+    cases hh : a.wsHeaders with
+      | none =>
+        simp only [hh, Option.some.injEq, Prod.mk.injEq] at h
+        obtain ⟨rfl, rfl⟩ := h
+        refine ⟨⟨[[]], rfl⟩, by simp, rfl, rfl, (by intro hd d rest h1; cases h1), fun _ => ⟨rfl, rfl⟩⟩
+      | some hd =>
+        simp only [hh] at h
+        cases hs : s[hd]? with
+        | none => simp [hs] at h
+        | some o =>
+          cases o with
+          | nil =>
+            simp only [hs, Option.some.injEq, Prod.mk.injEq] at h
+            obtain ⟨rfl, rfl⟩ := h
+            refine ⟨⟨[[]], rfl⟩, by simp, rfl, rfl, ?_, fun _ => ⟨rfl, rfl⟩⟩
+            intro hd' d rest h1 h2
+            cases h1
+            rw [hs] at h2; cases h2
+          | cons d rest =>
+            simp only [hs, Option.some.injEq, Prod.mk.injEq] at h
+            obtain ⟨rfl, rfl⟩ := h
+            refine ⟨⟨[], by simp⟩, by simp [hs], rfl, rfl, ?_, ?_⟩
+            · intro hd' d' rest' h1 _
+              cases h1; exact ⟨rfl, rfl⟩
+            · intro h1
+              rcases h1 with h1 | ⟨hd', h1, h2⟩
+              · cases h1
+              · cases h1; rw [hs] at h2; cases h2
+
+/-- **call_on_references.**  One `execute_ws` (any of the three code paths) on references: the store
+    afterwards is the store before with new objects appended, the client object is the same, and
+    the trace is the trace of the plain value-level model on the CONTENTS the references had. -/
+theorem call_on_references (v : Variant) (s : Store) (cl : ClientObj) (c : HCall) (cfg : Cfg) (vars : Vars)
+    (fs : List Frame) (h : cfgAt s cl c = some cfg) :
+    ∃ tail, runH v.merge (execOf v) s cl c vars fs = some (s ++ tail, cl, runPlain cfg vars fs) := by
+  obtain ⟨tail, ht⟩ := runH_eq v (execOf v) (execOf_viaMerge v) s cl c cfg vars fs h
+  exact ⟨tail, by rw [ht, execOf_eq_plain]⟩
+
+/-- what the `i`-th subscription shows when it is the only one ever made -/
+def standalone (v : Variant) (s : Store) (cl : ClientObj) (st : Step) : Option Obs :=
+  (cfgAt s cl st.call).map fun cfg => observe v st.refuse st.take (runPlain cfg st.vars st.frames)
+
+/-- every reference of every step names an object of the initial store -/
+def WfSteps (s : Store) (cl : ClientObj) (steps : List Step) : Prop :=
+  ∀ st ∈ steps, (cfgAt s cl st.call).isSome = true
+
+/-- **sequence_history_free.**  ANY number of subscriptions one after the other on ONE client object
+    - completed, failed, refused or abandoned ones, with any per-call `extra_headers`, sharing dict
+    objects with each other and with the constructor in any pattern: afterwards every dict object
+    that existed (the one behind `self.ws_headers`, the one passed to the constructor, every
+    caller's `extra_headers`, the init payload) holds what it held, the client object is the same,
+    and the `i`-th subscription showed exactly what it shows when run alone on the fresh client. -/
+theorem sequence_history_free (v : Variant) (s : Store) (cl : ClientObj) (steps : List Step)
+    (hwf : WfSteps s cl steps) :
+    (∀ i, i < s.length → (runSeqH v (execOf v) s cl steps).1[i]? = s[i]?) ∧
+    (runSeqH v (execOf v) s cl steps).2.1 = cl ∧
+    (runSeqH v (execOf v) s cl steps).2.2 = steps.map (standalone v s cl) := by
+  obtain ⟨g', hg⟩ := runSeqH_eq v (execOf v) (execOf_viaMerge v) s cl steps hwf []
+  simp only [List.append_nil] at hg
+  rw [hg]
+  refine ⟨fun i hi => List.getElem?_append_left hi, rfl, ?_⟩
+  rw [execOf_eq_plain]
+  rfl
+
+/-- **each_socket_headers.**  The `i`-th socket of such a sequence is opened with the configured
+    headers overridden by THAT call's `extra_headers` - and nothing else: for every header name, the
+    value is the call's if the call names it, else the configured one, else there is none.
+    (`cfg.headers` / `cfg.extraHeaders` are the contents the objects had before the FIRST call.) -/
+theorem each_socket_headers (v : Variant) (s : Store) (cl : ClientObj) (steps : List Step)
+    (hwf : WfSteps s cl steps) (i : Nat) (st : Step) (cfg : Cfg)
+    (hst : steps[i]? = some st) (hcfg : cfgAt s cl st.call = some cfg) (hk : NoDupKw cfg) :
+    (runSeqH v (execOf v) s cl steps).2.2[i]? =
+      some (some (observe v st.refuse st.take (runPlain cfg st.vars st.frames))) ∧
+    (runPlain cfg st.vars st.frames).events.head? = some (.connect (connectArgs subprotocol cfg)) ∧
+    s[cl.wsHeaders]? = some cfg.headers ∧ extraAt s st.call.extraHeaders = some cfg.extraHeaders ∧
+    (connectArgs subprotocol cfg).url = cl.url ∧
+    (connectArgs subprotocol cfg).subprotocols = ["graphql-transport-ws"] ∧
+    ∀ k, ((cfg.extraHeaders.getD []).map (·.1)).Nodup →
+      J.lookup k (connectArgs subprotocol cfg).extraHeaders =
+        match J.lookup k (cfg.extraHeaders.getD []) with
+        | some x => some x
+        | none => J.lookup k cfg.headers := by
+  obtain ⟨hw, he, -, -, hu, -⟩ := cfgAt_parts s cl st.call cfg hcfg
+  refine ⟨?_, ?_, hw, he, hu, rfl, fun k hn => dictUpdate_lookup _ _ k hn⟩
+  · rw [(sequence_history_free v s cl steps hwf).2.2]
+    simp [List.getElem?_map, hst, standalone, hcfg]
+  · have := (init_first cfg st.vars st.frames hk).1
+    cases hev : (runPlain cfg st.vars st.frames).events with
+    | nil => simp [hev] at this
+    | cons e rest =>
+      cases rest with
+      | nil => simp [hev] at this
+      | cons e2 rest2 =>
+        simp only [hev, List.take_succ_cons, List.take_zero, List.cons.injEq, and_true] at this
+        simp [this.1, theConnect]
+
+/-- **constructor_dict_unmodified.**  From the constructor on: whatever the caller passed as
+    `ws_headers=` (and every other object of the caller) is unmodified after any sequence of
+    subscriptions on the client that was built from it. -/
+theorem constructor_dict_unmodified (v : Variant) (s : Store) (a : CtorArgs) (s0 : Store) (cl : ClientObj)
+    (hc : construct s a = some (s0, cl)) (steps : List Step) (hwf : WfSteps s0 cl steps) :
+    ∀ i, i < s.length → (runSeqH v (execOf v) s0 cl steps).1[i]? = s[i]? := by
+  obtain ⟨⟨t, rfl⟩, -⟩ := constructor_keeps_reference s a s0 cl hc
+  intro i hi
+  rw [(sequence_history_free v (s ++ t) cl steps hwf).1 i (by simp; omega)]
+  exact List.getElem?_append_left hi
+
+/-- **interleaved_subscriptions_independent.**  For EVERY schedule of the steps of any number of
+    concurrently open subscriptions on one client (any order of first `__anext__`s, unfinished
+    ones allowed): no object that existed is written, the client object is the same, and every
+    subscription that started shows what it shows alone. -/
+theorem interleaved_subscriptions_independent (v : Variant) (s : Store) (cl : ClientObj) (steps : List Step)
+    (hwf : WfSteps s cl steps) (sched : List Nat) :
+    (∀ i, i < s.length → (runSchedule v (execOf v) (startW s cl steps) sched).store[i]? = s[i]?) ∧
+    (runSchedule v (execOf v) (startW s cl steps) sched).client = cl ∧
+    ∀ (i : Nat) st o, steps[i]? = some st →
+      ((runSchedule v (execOf v) (startW s cl steps) sched).tasks[i]? = some (.opened o) ∨
+       (runSchedule v (execOf v) (startW s cl steps) sched).tasks[i]? = some (.done o)) →
+      o = standalone v s cl st := by
+  obtain ⟨⟨g, hg⟩, h2, -, h4⟩ :=
+    inv_schedule v (execOf v) (execOf_viaMerge v) s cl steps hwf sched _ (inv_start v (execOf v) s cl steps)
+  refine ⟨fun i hi => by rw [hg]; exact List.getElem?_append_left hi, h2, ?_⟩
+  intro i st o hst hp
+  have key : o = alone v (execOf v) s cl st := by
+    rcases hp with hp | hp
+    · simpa [PhaseOk] using h4 i st _ hst hp
+    · simpa [PhaseOk] using h4 i st _ hst hp
+  rw [key, execOf_eq_plain]
+  rfl
+
+/-- non-vacuity: the coordinator's scenario.  Object 0 is the dict given to the constructor, object 1
+    one caller's `extra_headers`; three subscriptions: with object 1, without, with object 0 ITSELF. -/
+def store0 : Store := [[("Authorization", .str "Bearer service"), ("X-Tenant", .str "acme")],
+                       [("Authorization", .str "Bearer user-42"), ("X-Request-Id", .str "req-1")]]
+def client0 : ClientObj := { url := "ws://h/graphql", wsHeaders := 0, origin := none, initPayload := none }
+def call0 (e : Option Nat) : HCall := { query := "subscription S { counter }", opName := some "S", extraHeaders := e, kwargs := [], opId := "id" }
+def steps0 : List Step :=
+  [{ call := call0 (some 1), vars := none, frames := [frAck, frComplete] },
+   { call := call0 none, vars := none, frames := [frAck, frNext (.num 1 0)], take := some 1 },
+   { call := call0 (some 0), vars := none, frames := [], refuse := some "OSError" }]
+
+example : construct [store0[0]!, store0[1]!] ⟨"ws://h/graphql", some 0, none, none⟩ = some (store0, client0) := rfl
+example : WfSteps store0 client0 steps0 := by
+  intro st hst
+  simp only [steps0, List.mem_cons, List.not_mem_nil, or_false] at hst
+  rcases hst with rfl | rfl | rfl <;> rfl
+
+/-- the second socket of that sequence is opened with the CONFIGURED Authorization, not the first call's -/
+example : ∃ cfg, cfgAt store0 client0 (call0 none) = some cfg ∧
+    (connectArgs subprotocol cfg).extraHeaders = [("Authorization", .str "Bearer service"), ("X-Tenant", .str "acme")] :=
+  ⟨_, rfl, rfl⟩
+
+/-! ## 10. The consumer's side: refused connections, abandoned iterators -/
+
+/-- `ws_connect(...)` is called with the same arguments and `__aenter__` raises: the exception
+    escapes, nothing is sent, no socket was entered - in all three variants. -/
+theorem refused_connection (v : Variant) (cfg : Cfg) (vars : Vars) (fs : List Frame) (exc : String)
+    (h : NoDupKw cfg) :
+    observe v (some exc) none (runPlain cfg vars fs) = ⟨[theConnect cfg], some (.internal exc), .notOpened⟩ := by
+  have := (init_first cfg vars fs h).1
+  cases hev : (runPlain cfg vars fs).events with
+  | nil => simp [hev] at this
+  | cons e rest =>
+    cases rest with
+    | nil => simp [hev] at this
+    | cons e2 rest2 =>
+      simp only [hev, List.take_succ_cons, List.take_zero, List.cons.injEq, and_true] at this
+      obtain ⟨rfl, -⟩ := this
+      simp [observe, refuseAt, hev, theConnect, opened]
+
+/-- **abandoned_iterator.**  The consumer takes `n + 1` items and calls `aclose()`: what happened is
+    a prefix of the full run ending with the `n + 1`-th yield - nothing is sent, received or closed
+    after the consumer stopped; the socket is released before `aclose()` returns in the plain
+    client and only by the event loop's finaliser in the OpenTelemetry client (its `execute_ws` is a
+    wrapper generator that does not close the inner one).  If the run has fewer yields the iterator
+    ends by itself and the observation is the full one. -/
+theorem abandoned_iterator (v : Variant) (n : Nat) (tr : Trace) :
+    (∀ evs, cut (n + 1) tr.events = some evs →
+      observe v none (some (n + 1)) tr = ⟨evs, none, if v.deferredRelease then .deferred else .sync⟩ ∧
+      evs <+: tr.events ∧ (evs.filterMap Ev.yielded?).length = n + 1 ∧ ∃ d, evs.getLast? = some (.yield d)) ∧
+    (cut (n + 1) tr.events = none →
+      observe v none (some (n + 1)) tr = observe v none none tr ∧ tr.yielded.length < n + 1) := by
+  refine ⟨fun evs h => ?_, fun h => ?_⟩
+  · obtain ⟨h1, h2⟩ := cut_yields (n + 1) tr.events evs h
+    exact ⟨by simp [observe, refuseAt, h], cut_prefix _ _ _ h, h1, h2 (Nat.succ_pos n)⟩
+  · exact ⟨by simp [observe, refuseAt, h], cut_none _ _ h⟩
+
+/-- `aclose()` before the first `__anext__`: the body never starts - no connect, nothing -/
+theorem never_started (v : Variant) (refuse : Option String) (tr : Trace) :
+    observe v refuse (some 0) tr = ⟨[], none, .notOpened⟩ := rfl
+
+/-- the variants differ in NOTHING the consumer or the server can see - events and outcome - for every
+    consumer behaviour; only the moment of the release of an abandoned socket differs -/
+theorem ot_equivalent_observed (tracer : Bool) (refuse : Option String) (take : Option Nat) (tr : Trace) :
+    (observe (.ot tracer) refuse take tr).events = (observe .plain refuse take tr).events ∧
+    (observe (.ot tracer) refuse take tr).outcome = (observe .plain refuse take tr).outcome ∧
+    (take = none → observe (.ot tracer) refuse take tr = observe .plain refuse take tr) := by
+  cases take with
+  | none => exact ⟨rfl, rfl, fun _ => rfl⟩
+  | some n =>
+    cases n with
+    | zero => exact ⟨rfl, rfl, fun h => by cases h⟩
+    | succ n =>
+      simp only [observe]
+      cases cut (n + 1) (refuseAt refuse tr).events <;> exact ⟨rfl, rfl, fun h => by cases h⟩
 
 end Ariadne.C13
